@@ -70,12 +70,20 @@ Inductive dop :=
 | DPkts (ps : list dpkt) (ret : list (N * Z * bool))  (* per ReadFrom return: digest of p[:n], port of addr, err *)
 | DDrain (evs : list pev) (stuns : list N).           (* drained Events(), digests of drained STUN Message.Raw *)
 
-(* ServerPuncher histories *)
+(* ServerPuncher histories.  At most one Respond is in flight at a time (SOpRStart .. SOpREnd);
+   the attempts registered by SOpAdd stand for other attempts in progress. *)
 Inductive sop :=
 | SOpAdd (id : list byte) (m : rmeta) (ok : bool)
 | SOpRm (id : list byte) (evs : list pev)           (* what was waiting in the channel, drained just before removeAttempt *)
-| SOpPkts (ps : list dpkt) (nret : nat)               (* datagrams read through the conn; all events dispatched afterwards *)
-| SOpTake (id : list byte) (evs : list pev).          (* everything waiting in that attempt's channel *)
+| SOpPkts (ps : list dpkt) (ret : list (N * Z * bool))
+    (* datagrams read through the conn, every event dispatched (and taken by the Respond in flight)
+       before the next one is read; per ReadFrom return: digest of p[:n], port of addr, err *)
+| SOpTake (id : list byte) (evs : list pev)         (* everything waiting in that attempt's channel *)
+| SOpRStart (id : list byte) (m : rmeta) (ok : bool)
+    (* Respond(id, m) started and observed once it is blocked (ok) or has already returned an error *)
+| SOpREnd (noev : bool) (e : option pev).
+    (* the Respond in flight is observed to its end: noev = it was still waiting and ended by
+       timeout / cancellation; otherwise e = the event it returned with (None: it never registered) *)
 
 Inductive case :=
 | CEnc (ty : N) (m : rmeta) (r : cres)
@@ -196,24 +204,41 @@ Definition oracle_sane (ops : list dop) : bool :=
 
 (* ---- ServerPuncher ---- *)
 Definition s_all_obs (ops : list sop) : list pev :=
-  flat_map (fun o => match o with SOpTake _ evs => evs | SOpRm _ evs => evs | _ => [] end) ops.
+  flat_map (fun o => match o with SOpTake _ evs => evs | SOpRm _ evs => evs | SOpREnd _ (Some e) => [e] | _ => [] end) ops.
 Definition s_stun_set (ops : list sop) : list (list byte) :=
   flat_map (fun o => match o with
                      | SOpPkts ps _ => flat_map (fun k => if k_stun k && negb (k_err k) then [k_bytes k] else []) ps
                      | _ => [] end) ops.
 
-Fixpoint s_recv_all (orc : list byte -> bool) (obs : list pev) (s : sstate) (ps : list dpkt) (n : nat)
-  : option (sstate * nat) :=
+(* w = id of the Respond in flight that is still blocked in its select; got = the event it returned with *)
+Fixpoint s_recv_all (orc : list byte -> bool) (obs : list pev) (s : sstate) (w : option (list byte)) (got : option pev)
+         (ps : list dpkt) (acc : list (N * Z * bool))
+  : option (sstate * option (list byte) * option pev * list (N * Z * bool)) :=
   match ps with
-  | [] => Some (s, n)
+  | [] => Some (s, w, got, rev acc)
   | k :: t =>
-      if k_err k then s_recv_all orc obs s t (S n)
+      if k_err k then s_recv_all orc obs s w got t ((0, 0%Z, true) :: acc)
       else match sstep256 orc s (SConn (ARecv (k_bytes k) (k_addr k) (pick_obs obs))) with
-           | Ok (s', SOConn (OPass _ _)) => s_recv_all orc obs s' t (S n)
+           | Ok (s', SOConn (OPass p from)) => s_recv_all orc obs s' w got t ((digest p, a_port from, false) :: acc)
            | Ok (s', SOConn _) =>
-               (* the dispatch goroutine forwards the event before the next datagram is read *)
+               (* the dispatch goroutine forwards the event before the next datagram is read ... *)
                match sstep256 orc s' SDispatch with
-               | Ok (s'', _) => s_recv_all orc obs s'' t n
+               | Ok (s'', _) =>
+                   match w with
+                   | None => s_recv_all orc obs s'' w got t acc
+                   | Some id =>
+                       (* ... and Respond, if the event is in its channel, takes it and returns
+                          through its deferred removeAttempt *)
+                       match sstep256 orc s'' (STake id) with
+                       | Ok (s3, SOTake (Some e)) =>
+                           match sstep256 orc s3 (SRemove id) with
+                           | Ok (s4, _) => s_recv_all orc obs s4 None (Some e) t acc
+                           | _ => None
+                           end
+                       | Ok (s3, _) => s_recv_all orc obs s3 w got t acc
+                       | _ => None
+                       end
+                   end
                | _ => None
                end
            | _ => None
@@ -230,29 +255,61 @@ Fixpoint s_take_all (orc : list byte -> bool) (fuel : nat) (s : sstate) (id : li
            end
   end.
 
-Fixpoint srun_ops (orc : list byte -> bool) (obs : list pev) (s : sstate) (ops : list sop) : bool :=
+(* PunchResult carries the source and the decoded packet, not the attempt id *)
+Definition res_eqb (a b : pev) : bool :=
+  bytes_eq (fst (e_from a)) (fst (e_from b)) && (snd (e_from a) =? snd (e_from b))%Z &&
+  (e_ty a =? e_ty b) && Nat.eqb (e_pad a) (e_pad b).
+
+Fixpoint srun_ops (orc : list byte -> bool) (obs : list pev) (s : sstate) (w : option (list byte)) (got : option pev)
+         (ops : list sop) : bool :=
   match ops with
   | [] => true
   | SOpAdd id m ok :: t =>
       match sstep256 orc s (SAdd id m) with
-      | Ok (s', SOAdd ok') => Bool.eqb ok ok' && srun_ops orc obs s' t
+      | Ok (s', SOAdd ok') => Bool.eqb ok ok' && srun_ops orc obs s' w got t
       | _ => false
       end
   | SOpRm id evs :: t =>
       let '(s0, evs') := s_take_all orc (S defaultServerPunchEventBuffer) s id [] in
       pevs_eqb evs evs' &&
       match sstep256 orc s0 (SRemove id) with
-      | Ok (s', _) => srun_ops orc obs s' t
+      | Ok (s', _) => srun_ops orc obs s' w got t
       | _ => false
       end
-  | SOpPkts ps nret :: t =>
-      match s_recv_all orc obs s ps 0 with
-      | Some (s', n) => Nat.eqb n nret && srun_ops orc obs s' t
+  | SOpPkts ps ret :: t =>
+      match s_recv_all orc obs s w got ps [] with
+      | Some (s', w', got', ret') => keys_eqb ret ret' && srun_ops orc obs s' w' got' t
       | None => false
       end
   | SOpTake id evs :: t =>
       let '(s', evs') := s_take_all orc (S defaultServerPunchEventBuffer) s id [] in
-      pevs_eqb evs evs' && srun_ops orc obs s' t
+      pevs_eqb evs evs' && srun_ops orc obs s' w got t
+  | SOpRStart id m ok :: t =>
+      match w, got with
+      | None, None =>
+          match sstep256 orc s (SAdd id m) with
+          | Ok (s', SOAdd ok') => Bool.eqb ok ok' && srun_ops orc obs s' (if ok' then Some id else None) None t
+          | _ => false
+          end
+      | _, _ => false                                  (* the harness never nests two Responds *)
+      end
+  | SOpREnd noev e :: t =>
+      match w with
+      | Some id =>
+          (* still waiting: timeout / cancellation, then the deferred removeAttempt *)
+          noev && match e with None => true | Some _ => false end &&
+          match sstep256 orc s (SRemove id) with
+          | Ok (s', _) => srun_ops orc obs s' None None t
+          | _ => false
+          end
+      | None =>
+          negb noev &&
+          match got, e with
+          | Some a, Some b => res_eqb a b
+          | None, None => true
+          | _, _ => false
+          end && srun_ops orc obs s None None t
+      end
   end.
 
 Definition check (c : case) : bool :=
@@ -262,7 +319,7 @@ Definition check (c : case) : bool :=
   | CDemux cap ops =>
       oracle_sane ops && drun (oracle (stun_set ops)) (all_obs ops) (d_new cap) ops
   | CServer cap ops =>
-      srun_ops (oracle (s_stun_set ops)) (s_all_obs ops) (mkS (d_new cap) []) ops
+      srun_ops (oracle (s_stun_set ops)) (s_all_obs ops) (mkS (d_new cap) []) None None ops
   end.
 
 Definition mismatches (l : list case) : list nat := mism_from check 0 l.
